@@ -75,15 +75,16 @@ SecOf(s) == WithOff(Sec(Dot(<<115>>), N(IF s.nobits THEN 8 ELSE 1), N((IF s.tls 
                         N(s.addr), <<>>, N(s.size), Z, Z, N(1), Z), N(s.off))
 SegOf(g) == Seg(g.type, N(4), N(g.off), N(g.vaddr), N(g.vaddr), N(g.filesz), N(g.memsz), N(1))
 \* a deterministic enumeration of the section grid by mixed-radix index (sets have no order)
-NSecGeom == 2 * 2 * 2 * 5 * 6 * 4
-SecAt(k) == LET i == k - 1 IN
-            [tls |-> (i % 2) = 1, alloc |-> ((i \div 2) % 2) = 1, nobits |-> ((i \div 4) % 2) = 1,
-             off |-> 99 + ((i \div 8) % 5), addr |-> 999 + ((i \div 40) % 6), size |-> (i \div 240) % 4]
+\* per image: the 5 x 6 grid of (file offset, address) displacements; flags and size are part of the image's parameters
+NSecGeom == 5 * 6
+SecAtO(o, k) == LET i == k - 1 IN
+            [tls |-> o.tl, alloc |-> o.al, nobits |-> o.nb, off |-> 99 + (i % 5), addr |-> 999 + ((i \div 5) % 6), size |-> o.sz]
 SegAt(o, j) == [type |-> o.t, off |-> 100, vaddr |-> 1000, filesz |-> o.fs, memsz |-> j - 1]        \* j = 1..4
-InsegObjs ==
-  UNION {{ [cl |-> cl, t |-> t, fs |-> fs] : t \in SegTypes, fs \in 0..2} : cl \in {<<64, TRUE>>, <<32, FALSE>>}}
+InsegSeeds ==
+  UNION {{ [cl |-> cl, t |-> t, fs |-> fs, tl |-> FALSE, al |-> FALSE, nb |-> FALSE, sz |-> -1] : t \in SegTypes, fs \in 0..2} :
+           cl \in {<<64, TRUE>>, <<32, FALSE>>}}
 InsegImage(o) ==
-  [im |-> [Base(o.cl) EXCEPT !.secs = [k \in 1..NSecGeom |-> SecOf(SecAt(k))], !.segs = [j \in 1..4 |-> SegOf(SegAt(o, j))]]]
+  [im |-> [Base(o.cl) EXCEPT !.secs = [k \in 1..NSecGeom |-> SecOf(SecAtO(obj, k))], !.segs = [j \in 1..4 |-> SegOf(SegAt(o, j))]]]
 
 (* ----------------------------- address_offsets -------------------------- *)
 \* layouts: sequences of [load, off, vaddr, filesz, memsz]; non-loadable segments never contribute
@@ -111,7 +112,7 @@ AddrImage(cl, li) ==
 StrLens == <<0, 1, 62, 63, 64, 65, 66, 127, 128, 129, 300>>
 StrBody(k, n) == [i \in 1..n |-> 33 + ((k * 7 + i) % 90)]
 StrTable == <<0>> \o Flat([k \in 1..Len(StrLens) |-> StrBody(k, StrLens[k]) \o <<0>>]) \o <<195, 169, 0>>
-StrOffsets == {0, 1, 2, 3} \cup {o \in 1..Len(StrTable) : StrTable[o] = 0} \cup {o \in 1..(Len(StrTable) - 2) : o % 29 = 0}
+StrOffsets == {0, 1, 2, 3} \cup {o \in 1..(Len(StrTable) - 1) : StrTable[o] = 0} \cup {o \in 1..(Len(StrTable) - 2) : o % 29 = 0}
 StrImage(cl, pad) ==
   [Base(cl) EXCEPT !.secs = <<Sec(Dot(<<112>>), N(1), Z, Z, Rep(7, pad), N(pad), Z, Z, N(1), Z),
                               Sec(Dot(<<115, 116>>), N(3), Z, Z, StrTable, N(Len(StrTable)), Z, Z, N(1), Z)>>]
@@ -155,15 +156,19 @@ InterpStr == <<47, 108, 105, 98, 47, 108, 100, 46, 115, 111, 0>>                
 
 (* --------------------------------- the machine -------------------------- *)
 Init ==
-  /\ mode \in Modes /\ done = TRUE
-  /\ CASE mode = "inseg" -> obj \in InsegObjs
+  /\ mode \in Modes
+  /\ done = (mode # "inseg")
+  /\ CASE mode = "inseg" -> obj \in InsegSeeds
        [] mode = "addr" -> \E cl \in ClsLe, li \in 1..Len(Layouts) : obj = [cl |-> cl, li |-> li]
        [] mode = "strings" -> \E cl \in ClsLe, pad \in {0, 1, 37, 63} : obj = [cl |-> cl, pad |-> pad]
        [] mode = "data" -> \E cl \in ClsLe, k \in DataKinds, n \in Sizes \cup {70000}, blk \in {65535, 100} :
                               /\ (blk = 100 => k = "zlib" /\ n \in {0, 300})
                               /\ (n = 70000 => k = "nobits")
                               /\ obj = [cl |-> cl, kind |-> k, n |-> n, blk |-> blk]
-Next == UNCHANGED vars
+\* the grid writer picks the section flags and size in a second step (so that TLC workers share the images)
+PickFlags == /\ mode = "inseg" /\ ~done /\ done' = TRUE /\ UNCHANGED mode
+             /\ \E tl \in BOOLEAN, al \in BOOLEAN, nb \in BOOLEAN, sz \in 0..3 : obj' = [obj EXCEPT !.tl = tl, !.al = al, !.nb = nb, !.sz = sz]
+Next == PickFlags
 Spec == Init /\ [][Next]_vars
 
 (* ---------------------------------- emission ---------------------------- *)
@@ -173,8 +178,8 @@ Case ==
          LET x == InsegImage(obj) IN
          [mode |-> mode, chunks |-> Chunks(x.im), nsec |-> NSecGeom, nseg |-> 4,
           \* expected matrix, row per segment, "2" = outside the named clause groups (not asserted)
-          expect |-> [j \in 1..4 |-> [k \in 1..NSecGeom |->
-                        IF ~InDomain(SecAt(k), SegAt(obj, j)) THEN 2 ELSE Bit(InSegStrict(SecAt(k), SegAt(obj, j)))]]]
+          expect |-> TLCEval([j \in 1..4 |-> TLCEval([k \in 1..NSecGeom |->
+                        IF ~InDomain(SecAtO(obj, k), SegAt(obj, j)) THEN 2 ELSE Bit(InSegStrict(SecAtO(obj, k), SegAt(obj, j)))])])]
     [] mode = "addr" ->
          LET im == AddrImage(obj.cl, obj.li)   qs == SetToSortSeq(AddrQueries, LAMBDA p, q : p[1] * 16 + p[2] < q[1] * 16 + q[2]) IN
          [mode |-> mode, chunks |-> Chunks(im),
@@ -201,11 +206,11 @@ Case ==
              \* where the stream a different compressor would write may be substituted: [file offset, length of the slot,
              \* offset/width of sh_size, of p_filesz]  (harness-side recompression at other zlib levels)
              zslot |-> [off |-> off2 + SizeOf(ChdrF(obj.cl[1]), obj.cl[1]), len |-> dlen - SizeOf(ChdrF(obj.cl[1]), obj.cl[1])]]
-Emit == CSVWrite("%1$s", <<ToJson(Case)>>, IOEnv.OUT)
+Emit == done => CSVWrite("%1$s", <<ToJson(Case)>>, IOEnv.OUT)
 
 (* --------------------------------- properties --------------------------- *)
-MacroEqGeometric == mode = "inseg" => \A k \in 1..NSecGeom : \A j \in 1..4 :
-                                         InSegStrict(SecAt(k), SegAt(obj, j)) = Geometric(SecAt(k), SegAt(obj, j))
+MacroEqGeometric == (mode = "inseg" /\ done) => \A k \in 1..NSecGeom : \A j \in 1..4 :
+                                         InSegStrict(SecAtO(obj, k), SegAt(obj, j)) = Geometric(SecAtO(obj, k), SegAt(obj, j))
 ChunkedEqDeclarative == mode = "strings" => \A o \in StrOffsets : LET d == CStrAt(StrTable, o)   c == ChunkRun(StrTable, o, <<>>) IN
                                               d.ok /\ c.ok /\ d.s = c.s
 DeflateRoundTrip == mode = "data" /\ obj.kind = "zlib" => LET p == Payload(obj.n) IN Inflate(Stored(p, obj.blk), 3) = p
